@@ -389,3 +389,137 @@ def record_replay(inputs, clause):
 
 for _u in RECORD_UNITS:
     _u.replay = record_replay
+
+
+# ------------------------------------------------------------------------------ write_cache: atomic publication
+# "later runs reading it ... identical answers": a cache file that exists under its final name is complete.  Typestate
+# monitor evaluated after every statement and on every exceptional edge (a write or the rename may fail at any call):
+# the final path is absent or holds every line.
+CACHE_PATH = 'vcf_allele_cache/chr1.tsv.gz'
+CACHE_CONTENT = {5: {'A': {'s1', 's2'}}, 9: {'C': {'s1'}, 'T': {'s2'}}, 12: {'G': {'s3'}}}
+N_LINES = sum(len(v) for v in CACHE_CONTENT.values())
+
+
+def wc_monitor(eng, node, fr):
+    fs = eng.ghost['fs']
+    ok = CACHE_PATH not in fs or (len(fs[CACHE_PATH]) == N_LINES and eng.ghost['closed'].get(CACHE_PATH, False))
+    eng.check('monitor.cache_file_under_its_final_name_is_complete', bool(ok), kind='monitor',
+              info={'line': getattr(node, 'lineno', None), 'lines_at_final_path': len(fs.get(CACHE_PATH, []))})
+
+
+def wc_setup(eng):
+    from pyvc import externals
+    eng.ghost = {'fs': {}, 'closed': {}}
+    eng.spec_env['GHOST'] = eng.ghost
+    eng.monitor = wc_monitor
+
+    def fail(e, label):
+        if e.branch(fresh(BOOL, 'fails_' + label).z):
+            raise PyRaise('OSError', 'injected failure at ' + label)
+
+    def gz_open(e, a, k, n):
+        path = a[0]
+        fail(e, 'open')
+        e.ghost['fs'][path] = []
+        e.ghost['closed'][path] = False
+        o = Obj('GzWriter', {'path': path})
+        o.vc_immutable = True
+        return o
+
+    def write(e, o, data):
+        fail(e, 'write')
+        e.ghost['fs'][o.attrs['path']].append(data)
+
+    def close(e, o, *a):
+        e.ghost['closed'][o.attrs['path']] = True
+
+    def rename(e, a, k, n):
+        fail(e, 'rename')
+        fs, cl = e.ghost['fs'], e.ghost['closed']
+        fs[a[1]] = fs.pop(a[0])
+        cl[a[1]] = cl.pop(a[0])
+    stubs.STUBS['GzWriter'] = {'methods': {'write': write, '__enter__': lambda e, o: o, '__exit__': close, 'close': close},
+                               'props': {}, 'setters': {}}
+    externals.EXTRA['gzip.open'] = gz_open
+    externals.EXTRA['os.rename'] = rename
+
+
+def wc_self(eng, name):
+    return Obj('AlleleResolver', {'locationToAllele': {'chr1': {p: {b: set(s) for b, s in d.items()} for p, d in CACHE_CONTENT.items()}}},
+               info=eng.loader.classref(FA, 'AlleleResolver'))
+
+
+write_cache = Contract(
+    PROP, FA + '::AlleleResolver.write_cache', name='AlleleResolver.write_cache[atomic publication]',
+    params={'self': wc_self, 'path': ('const', CACHE_PATH), 'chrom': ('const', 'chr1')},
+    setup=wc_setup,
+    ensures={'published_complete': 'len(GHOST["fs"][path]) == %d and GHOST["closed"][path]' % N_LINES,
+             'no_temporary_file_left': 'len(GHOST["fs"]) == 1'},
+    raises={'OSError': 'True'},
+    max_paths=400,
+    assumptions=['gzip.open(path, "wt") creates/truncates the file, write appends a line, leaving the with-block closes it; '
+                 'os.rename is atomic (A4); every open / write / rename may fail; a fixed table of 4 lines (the control '
+                 'flow does not depend on the values)'],
+)
+UNITS.append(write_cache)
+
+
+def wc_replay(inputs, clause):
+    """real AlleleResolver.write_cache, the third line write fails (disk full): is there a file under the final name?"""
+    import gzip
+    import importlib
+    import os
+    import shutil
+    import tempfile
+    mod = importlib.import_module('singlecellmultiomics.alleleTools.alleleTools')
+    base = os.path.join(os.path.dirname(os.path.dirname(os.path.abspath(__file__))), '.scratch')
+    os.makedirs(base, exist_ok=True)
+    d = tempfile.mkdtemp(prefix='c18w_', dir=base)
+    real_open = gzip.open
+
+    class Failing:
+        def __init__(self, f):
+            self.f, self.n = f, 0
+
+        def write(self, s):
+            self.n += 1
+            if self.n == 3:
+                raise OSError(28, 'No space left on device (injected)')
+            return self.f.write(s)
+
+        def __enter__(self):
+            return self
+
+        def __exit__(self, *a):
+            self.f.close()
+            return False
+    try:
+        r = mod.AlleleResolver.__new__(mod.AlleleResolver)
+        r.locationToAllele = {'chr1': {p: {b: set(s) for b, s in dd.items()} for p, dd in CACHE_CONTENT.items()}}
+        path = os.path.join(d, 'chr1.tsv.gz')
+        mod.gzip.open = lambda p, m='rt', *a, **k: Failing(real_open(p, m, *a, **k)) if 'w' in m else real_open(p, m, *a, **k)
+        raised = None
+        try:
+            r.write_cache(path, 'chr1')
+        except OSError as e:
+            raised = str(e)
+        finally:
+            mod.gzip.open = real_open
+        exists = os.path.exists(path)
+        lines = None
+        if exists:
+            try:
+                lines = len(real_open(path, 'rt').read().splitlines())
+            except Exception:      # noqa
+                lines = -1
+        obs = {'outcome': 'raise' if raised else 'return', 'value': {'error': raised, 'final_path_exists': exists,
+                                                                     'lines_readable_at_final_path': lines, 'expected_lines': N_LINES}}
+        if exists and lines != N_LINES:
+            return {'status': 'confirmed', 'observed': obs, 'failed': [{'clause': 'monitor.cache_file_under_its_final_name_is_complete'}]}
+        return {'status': 'not-reproduced', 'observed': obs}
+    finally:
+        mod.gzip.open = real_open
+        shutil.rmtree(d, ignore_errors=True)
+
+
+write_cache.replay = wc_replay
